@@ -155,6 +155,15 @@ public:
         }
     }
 
+    void Reset() {
+        for (auto& pending : interrupt_pending)
+            pending = false;
+        vinterrupt_pending = false;
+        vinterrupt_context_switch = false;
+        vinterrupt_address = 0;
+        idle = false;
+    }
+
     void SignalInterrupt(u32 i) {
         interrupt_pending[i] = true;
     }
